@@ -42,6 +42,10 @@ BulkCalls == {<<"add_nodes", <<"n1", "n2">>>>,
               <<"add_links", <<<<"n1", "l1", "n2">>, <<"n1", "l2", "n2">>>>>>,
               <<"add_links", <<<<"n2", "l1", "n1">>, <<"n2", "l1", "n2">>>>>>}
              \cup (IF Has3 THEN {<<"add_nodes", <<"n3", "n1">>>>, <<"add_links", <<<<"n1", "l1", "n2">>, <<"n2", "l2", "n3">>>>>>} ELSE {})
+\* calls that raise part-way, after the graph has already changed (see NetBuild!MalformedCall)
+FailCalls == {<<"add_links", <<<<"n1", "l2", "n2">>, <<"n2", "l1">>>>>>, <<"add_nodes", <<"n2", "None">>>>, <<"add_link", "n2", "l2", "None">>}
+             \cup (IF Has3 THEN {<<"add_links", <<<<"n1", "l2", "n3">>, <<"n2", "n3">>>>>>, <<"add_links", <<<<"n2", "l2", "n3">>, <<"n3", "l1">>>>>>,
+                                 <<"add_nodes", <<"n3", "None", "n1">>>>, <<"add_link", "n3", "l1", "None">>} ELSE {})
 FewPaths == {<<"add_path", <<"n1", "l1", "n2">>, "o1", "d1">>,
              <<"add_path", <<"n1", "l1", "n2", "l2", IF Has3 THEN "n3" ELSE "n1">>, "", "">>,
              <<"add_path", <<"n2", "l2", "n1">>, "r1", "">>,
@@ -83,7 +87,7 @@ NearCalls == {<<"add_node", n>> : n \in NodeIds}
              \cup {<<"add_origin", o, n>> : o \in {"o1", "o4", "r1", "r4"}, n \in NodeIds}
              \cup {<<"add_destination", d, n>> : d \in {"d1", "d4"}, n \in NodeIds}
 
-Calls == CASE Profile = "cache" -> SingleMut \cup ReadCalls \cup ViewCalls \cup BulkCalls \cup FewPaths
+Calls == CASE Profile = "cache" -> SingleMut \cup ReadCalls \cup ViewCalls \cup BulkCalls \cup FewPaths \cup FailCalls
            [] Profile = "near" -> NearCalls
            [] Profile = "dense" -> {<<"add_link", u, l, v>> : u \in NodeIds, l \in LinkIds, v \in NodeIds}
            [] Profile = "ind" -> SingleMut \cup ReadCalls
@@ -91,7 +95,7 @@ Calls == CASE Profile = "cache" -> SingleMut \cup ReadCalls \cup ViewCalls \cup 
                                  \cup {<<"add_links", <<<<u, "l1", v>>, <<v, "l2", u>>>>>> : u \in NodeIds, v \in NodeIds}
                                  \cup {<<"add_nodes", <<u, v>>>> : u \in NodeIds, v \in NodeIds}
            [] Profile = "pathread" -> PathReadCalls(0)
-           [] Profile = "valid" -> SingleMut \cup ValidPaths
+           [] Profile = "valid" -> SingleMut \cup ValidPaths \cup FailCalls
            [] Profile = "path"  -> AllPaths \cup {<<"add_link", "n1", "l1", "n2">>, <<"add_origin", "o1", "n1">>, <<"add_node", "n2">>}
 
 CallEnabled(c) == c[1] \in {"out_links", "in_links"} => c[2] \in Range(S.nodes)
@@ -149,12 +153,12 @@ Emit == (EmitOn /\ depth' <= MaxDepth) =>
 InvCacheCoherent == CacheCoherent(S)                                        \* C08
 InvOnlyNodes == OnlyNodes(S)                                                \* C09
 InvWellTyped == OnlyNodes(S) => WellTyped(S)                                \* C09
-IsSuccess(c) == c[1] \in {"add_node", "add_nodes", "add_link", "add_links", "add_origin", "add_destination"}
+IsSuccess(c) == (c[1] \in {"add_node", "add_nodes", "add_link", "add_links", "add_origin", "add_destination"} /\ ~MalformedCall(c))
                 \/ (c[1] = "add_path" /\ WellFormedPath(c[2]))
 Check ==
   LET c == hist'[Len(hist')]
       ok == SelectSeq(hist', IsSuccess)
-      allOk == \A i \in DOMAIN hist' : hist'[i][1] = "add_path" => WellFormedPath(hist'[i][2])
+      allOk == \A i \in DOMAIN hist' : (hist'[i][1] = "add_path" => WellFormedPath(hist'[i][2])) /\ ~MalformedCall(hist'[i])
   IN /\ Assert(ReadFresh(S', c, res'), <<"C08 ReadFresh violated", hist'>>)
      /\ Assert(MalformedRejected(c, res'), <<"C09 MalformedRejected violated", hist'>>)
      /\ Assert(WellFormedAccepted(c, res'), <<"C09 WellFormedAccepted violated", hist'>>)
